@@ -348,6 +348,44 @@ pub fn run(tier: Tier, replay: Option<String>) -> i32 {
             }
         }
     }
+    // text arguments: names and passwords of every length 0..=40, with a 2-, 3- or 4-byte character at
+    // every offset, carets and page switches at the cut - isi() must not panic and must encode to the
+    // frame of an ISI carrying exactly that text (the text field rule itself is C11's)
+    let mut texts: Vec<String> = vec![];
+    for n in 0..=40usize {
+        texts.push("a".repeat(n));
+    }
+    for wide in ["\u{e9}", "\u{65e5}", "\u{1f600}", "\u{448}", "^"] {
+        for off in 0..=20usize {
+            texts.push(format!("{}{wide}{}", "a".repeat(off), "b".repeat(3)));
+            texts.push(format!("{}{wide}{wide}", "a".repeat(off)));
+        }
+    }
+    let mut text_cases = 0u64;
+    for which in 0..2u8 {
+        for t in &texts {
+            for base in 0..2u8 {
+                text_cases += 1;
+                acc.eval();
+                let mut b = Builder::default();
+                if base == 1 { b = b.udp(remote(), Some(local())).isi_flag_mci(true).isi_prefix(Some('!')); }
+                b = if which == 0 { b.isi_admin_password(Some(t.clone())) } else { b.isi_iname(Some(t.clone())) };
+                let replay = json!({"site": "text-arguments", "field": if which == 0 { "admin" } else { "iname" }, "text": t});
+                let got = guard(|| {
+                    let isi = b.isi();
+                    let mut want = isi.clone();
+                    if which == 0 { want.admin = t.clone(); } else { want.iname = t.clone(); }
+                    let codec = Codec::new(mode_of(false));
+                    (codec.encode(&Packet::Isi(isi)).map(|x| x.to_vec()).map_err(|e| e.to_string()), codec.encode(&Packet::Isi(want)).map(|x| x.to_vec()).map_err(|e| e.to_string()))
+                });
+                match got {
+                    Err(p) => acc.violate(text_cases, format!("C18|builder|isi-panics|text-{}", if which == 0 { "admin" } else { "iname" }), format!("{} = {t:?}: isi() or its encoding panicked: {p}", if which == 0 { "admin password" } else { "name" }), replay),
+                    Ok((a, w)) if a == w => { acc.class("text-argument-carried"); acc.nontrivial(); },
+                    Ok((a, w)) => acc.violate(text_cases, format!("C18|builder|isi-text-{}", if which == 0 { "admin" } else { "iname" }), format!("{t:?}: ISI frame {:?} where an ISI carrying that text encodes to {:?}", a.map(|x| hex(&x)), w.map(|x| hex(&x))), replay),
+                }
+            }
+        }
+    }
     acc.samples.push(json!({"history": ["Flag(0, true)", "UdpSome", "Tcp", "Reqi(255)"], "note": "udp_local_address survives a later tcp()"}));
     let mut extra = serde_json::Map::new();
     let _ = extra.insert("states".into(), json!(states));
@@ -358,7 +396,7 @@ pub fn run(tier: Tier, replay: Option<String>) -> i32 {
     let _ = extra.insert("connect_cases".into(), json!(connects));
     crate::report::finish(crate::report::Outcome {
         property: "C18".into(), tier, level: "model_checking", acc,
-        rule: format!("all builder states reachable with a {}-setter alphabet ({} flag helpers on/off, wholesale flags x3, prefix x2, interval x3, iname x2, admin x2, reqi x3, tcp, udp without/with local address, compressed, uncompressed, relay); every transition replays the setter history on a fresh Builder and compares isi() with a reference builder; plus 72 connects (tcp / udp without / with local address x mode x blocking/tokio x 6 ISI configurations) against loopback peers", alpha.len(), if tier == Tier::Thorough { 10 } else { 5 }),
+        rule: format!("all builder states reachable with a {}-setter alphabet ({} flag helpers on/off, wholesale flags x3, prefix x2, interval x3, iname x2, admin x2, reqi x3, tcp, udp without/with local address, compressed, uncompressed, relay); every transition replays the setter history on a fresh Builder and compares isi() with a reference builder; plus 72 connects (tcp / udp without / with local address x mode x blocking/tokio x 6 ISI configurations) against loopback peers; plus names and passwords of every length 0..=40 and with multi-byte characters / carets at every offset 0..=20", alpha.len(), if tier == Tier::Thorough { 10 } else { 5 }),
         exhaustive: true, extra,
         assumptions: vec!["state key = Debug rendering of the real Builder + the reference ISI".into(), "UDP without a local address is expected to announce UDPPort 0 (LFS then replies to the source port)".into()],
         started,
